@@ -1931,10 +1931,26 @@ theorem paramDecl_safe (s : St) (hw : WF ctx s) : Safe ctx (parseParamDecl ctx n
     exact safe_congr ctx (q := ignoreUntil0 ctx (peek (la ctx .param_dec)) (loopFuel ctx) s0.pos) rfl
       (ignoreUntil0_safe' ctx _ (peekla_atEof ctx .param_dec) (peekla_atKw ctx .param_dec) _ _ s0 w0 (loopFuel_ok ctx s0 w0) (fun s' w _ _ => peekla_safe ctx .param_dec s' w))
 
-theorem procDeclInner_safe (s : St) (hw : WF ctx s) :
-    SafeK ctx (procDeclInner ctx none) s ∧ Strict (procDeclInner ctx none) s := by
-  unfold procDeclInner
-  refine doctk_bothK ctx .Proc _ s hw (fun s2 doc _ w2 _ _ => ?_)
+/-- what follows the `proc` keyword -/
+def procRest (doc : List (List Char)) : P (List (List Char) × Option Identifier × List (Ref ParamDecl) × List (Ref VarDecl) × List (Ref Stmt)) :=
+  Parse.bind (Parse.expect none (parseIdentifier ctx) (.ExpectedToken (chars "identifier"))) (fun name =>
+    Parse.bind (Parse.expect none (inc (tk ctx .LParen)) (.MissingOpening '(')) (fun _ =>
+    Parse.bind (alt2
+          (pmap (fun _ => ([] : List (Ref ParamDecl)))
+            (peek (altList [void (tk ctx .RParen), void (tk ctx .LCurly), void (tk ctx .Eof)])))
+          (parseList ctx (fun (p : ParamDecl) => p.info.range) (parseParamDecl ctx) (loopFuel ctx) none)) (fun params =>
+    Parse.bind (Parse.expect none (inc (tk ctx .RParen)) (.MissingClosing ')')) (fun _ =>
+    Parse.bind (Parse.expect none (inc (tk ctx .LCurly)) (.MissingOpening '{')) (fun _ =>
+    Parse.bind (many ctx (fun (v : VarDecl) => v.info.range) (parseVarDecl ctx) (loopFuel ctx) none) (fun vars =>
+    Parse.bind (many ctx (fun (s : Stmt) => s.info.range) (parseStmt ctx (stmtFuel ctx)) (loopFuel ctx) none) (fun stmts =>
+    Parse.bind (Parse.expect none (inc (tk ctx .RCurly)) (.MissingClosing '}')) (fun _ =>
+      pure' (doc, name, params, vars, stmts)))))))))
+
+theorem procDeclInner_eq : procDeclInner ctx none =
+    Parse.bind (docComments ctx) (fun doc => Parse.bind (tk ctx .Proc) (fun _ => procRest ctx doc)) := rfl
+
+theorem procRest_safe (doc : List (List Char)) (s2 : St) (w2 : WF ctx s2) : Safe ctx (procRest ctx doc) s2 := by
+  unfold procRest
   have h2 := (expect_safe ctx (.ExpectedToken (chars "identifier")) w2 (parser := parseIdentifier ctx) (ident_safe ctx s2 w2)).1
   refine bind_safe ctx h2 (fun s3 _ e3 => ?_)
   have w3 := h2.wf_ok ctx w2 e3
@@ -1968,6 +1984,12 @@ theorem procDeclInner_safe (s : St) (hw : WF ctx s) :
   have w9 := h8.wf_ok ctx w8 e9
   have h9 := expectInc_safe ctx (tk ctx .RCurly) (.MissingClosing '}') s9 w9 (tk_safe ctx _ s9 w9)
   exact bind_safe ctx h9 (fun s10 _ e10 => pure_safe ctx _ s10 (h9.wf_ok ctx w9 e10))
+
+
+theorem procDeclInner_safe (s : St) (hw : WF ctx s) :
+    SafeK ctx (procDeclInner ctx none) s ∧ Strict (procDeclInner ctx none) s := by
+  rw [procDeclInner_eq]
+  exact doctk_bothK ctx .Proc (fun doc _ => procRest ctx doc) s hw (fun s2 doc _ w2 _ _ => procRest_safe ctx doc s2 w2)
 
 theorem procDecl_safe (s : St) (hw : WF ctx s) : SafeK ctx (parseProcDecl ctx none) s := by
   show SafeK ctx (pmap _ (info (procDeclInner ctx none))) s
@@ -2637,5 +2659,282 @@ theorem program_total (he : EofLast ctx) : ∃ s' p, parseProgram ctx none { pos
     | ok s' p => exact ⟨s', p, rfl⟩
     | err k2 x2 => exact absurd hr (hne k2 x2)
     | panic e => exact absurd hr (hnp e)
+
+/-! ### containment: every `proc` / `type` keyword starts its own declaration -/
+
+/-- the tokens `a … b-1` are comments -/
+def Comments (a b : Nat) : Prop := ∀ i t, a ≤ i → i < b → ctx.toks[i]? = some t → t.kind = Kind.Comment
+
+theorem Comments.trans {a b c : Nat} (h1 : Comments ctx a b) (h2 : Comments ctx b c) : Comments ctx a c := by
+  intro i t hi1 hi2 ht
+  by_cases hb : i < b
+  · exact h1 i t hi1 hb ht
+  · exact h2 i t (by omega) hi2 ht
+
+theorem comment_ok_inv {s s' : St} {c : List Char} (h : comment ctx s = .ok s' c) :
+    s'.pos = s.pos + 1 ∧ ∃ t, ctx.toks[s.pos]? = some t ∧ t.kind = Kind.Comment := by
+  unfold comment at h
+  cases h1 : take1 ctx s with
+  | ok s1 t =>
+    rw [h1] at h
+    obtain ⟨rfl, ht⟩ := take1_ok ctx h1
+    cases hty : t.ty with
+    | Comment c' =>
+      simp only [hty, Res.ok.injEq] at h
+      obtain ⟨rfl, _⟩ := h
+      exact ⟨rfl, t, ht, by simp [Token.kind, hty, TokenType.kind]⟩
+    | _ => simp [hty] at h
+  | err k x => rw [h1] at h; cases h
+  | panic e => rw [h1] at h; cases h
+
+theorem comments_run : ∀ (fuel : Nat) (s s' : St) (cs : List (List Char)), many0 (comment ctx) fuel s = .ok s' cs →
+    Comments ctx s.pos s'.pos
+  | 0, _, _, _, h => by cases h
+  | fuel + 1, s, s', cs, h => by
+    simp only [many0] at h
+    cases h1 : comment ctx s with
+    | err k x => rw [h1] at h; cases h; intro i t a b; omega
+    | panic e => rw [h1] at h; cases h
+    | ok s1 c =>
+      rw [h1] at h
+      simp only at h
+      obtain ⟨hp, t, ht, hk⟩ := comment_ok_inv ctx h1
+      split at h
+      · cases h
+      · cases h2 : many0 (comment ctx) fuel s1 with
+        | ok s2 as =>
+          rw [h2] at h
+          cases h
+          have ih := comments_run fuel s1 _ _ h2
+          refine Comments.trans ctx (b := s1.pos) ?_ ih
+          intro i t' hi1 hi2 ht'
+          have : i = s.pos := by omega
+          subst this
+          rw [ht] at ht'; cases ht'; exact hk
+        | err k x => rw [h2] at h; cases h
+        | panic e => rw [h2] at h; cases h
+
+/-- a token parser skips comments only -/
+theorem tk_skips {k : Kind} {s s' : St} {t : Token} (h : tk ctx k s = .ok s' t) : Comments ctx s.pos (s'.pos - 1) := by
+  have h' : tag ctx (loopFuel ctx) (fun ty => ty.kind == k) s = .ok s' t := h
+  unfold tag at h'
+  cases h1 : many0 (comment ctx) (loopFuel ctx) s with
+  | ok s1 cs =>
+    rw [h1] at h'
+    simp only at h'
+    cases h2 : take1 ctx s1 with
+    | ok s2 t2 =>
+      rw [h2] at h'
+      simp only at h'
+      obtain ⟨rfl, _⟩ := take1_ok ctx h2
+      split at h'
+      · cases h'
+        have := comments_run ctx _ _ _ _ h1
+        simpa using this
+      · cases h'
+    | err k2 x => rw [h2] at h'; cases h'
+    | panic e => rw [h2] at h'; cases h'
+  | err k2 x => rw [h1] at h'; cases h'
+  | panic e => rw [h1] at h'; cases h'
+
+/-- what a global declaration consumes: comments, one token, then no `proc` / `type` keyword -/
+def Contained (s s' : St) : Prop :=
+  ∃ j, s.pos ≤ j ∧ j < s'.pos ∧ Comments ctx s.pos j ∧
+    ∀ i t, j < i → i < s'.pos → ctx.toks[i]? = some t → t.kind ≠ Kind.Proc ∧ t.kind ≠ Kind.Type
+
+theorem pmap_ok_inv {α β} {p : P α} {f : α → β} {s s' : St} {b : β} (h : pmap f p s = .ok s' b) :
+    ∃ a, p s = .ok s' a := by
+  unfold pmap at h
+  cases h1 : p s with
+  | ok s1 a => rw [h1] at h; cases h; exact ⟨a, rfl⟩
+  | err k x => rw [h1] at h; cases h
+  | panic e => rw [h1] at h; cases h
+
+/-- documentation comments, a keyword, a clean continuation: contained -/
+theorem doctk_contained {β} (k : Kind) (tail : List (List Char) → Token → P β) (s : St) (hw : WF ctx s)
+    (hf : ∀ s2 doc t, WF ctx s2 → s.pos < s2.pos → s2.refPos = s.refPos → Safe ctx (tail doc t) s2)
+    (hk : k ≠ Kind.Eof := by decide) (s' : St) (b : β)
+    (h : Parse.bind (docComments ctx) (fun doc => Parse.bind (tk ctx k) (tail doc)) s = .ok s' b) :
+    Contained ctx s s' := by
+  have hd := docComments_safe ctx s hw
+  obtain ⟨s1, doc, h1, h2⟩ := bind_ok_inv h
+  obtain ⟨s2, t, h3, h4⟩ := bind_ok_inv h2
+  have p1 := hd.ok _ _ h1
+  have w1 := p1.wf ctx hw
+  have ht := tk_safeK ctx k s1 w1 hk
+  have p2 := ht.ok _ _ h3
+  have w2 := p2.wf ctx w1
+  obtain ⟨hlt, _, _⟩ := tk_ok ctx w1 h3
+  have hs := hf s2 doc t w2 (by have := p1.1; omega) (by rw [p2.2.2.1, p1.2.2.1])
+  have p3 := hs.ok _ _ h4
+  have c1 : Comments ctx s.pos s1.pos := comments_run ctx _ _ _ _ h1
+  have c2 := tk_skips ctx h3
+  refine ⟨s2.pos - 1, by have := p1.1; omega, by have := p3.1; omega, Comments.trans ctx c1 c2, ?_⟩
+  intro i t' hi1 hi2 ht'
+  exact p3.2.2.2.2 i t' (by omega) hi2 ht'
+
+/-- **one declaration keyword per declaration node**: whatever the tokens are, a global declaration that the loop
+    parses consumes documentation comments, then one token, and behind it no `proc` / `type` keyword -/
+theorem globalDecl_contained (s : St) (hw : WF ctx s) (s' : St) (d : GlobalDecl)
+    (h : parseGlobalDecl ctx none s = .ok s' d) : Contained ctx s s' := by
+  have h' : altList [pmap GlobalDecl.type (pmap (fun (p : (List (List Char) × Option Identifier × Option (Ref TypeExpr)) × AstInfo) =>
+        ({ doc := p.1.1, name := p.1.2.1, typeExpr := p.1.2.2, info := p.2 } : TypeDecl)) (info (typeDeclInner ctx none none))),
+      pmap GlobalDecl.proc (pmap (fun (p : (List (List Char) × Option Identifier × List (Ref ParamDecl) × List (Ref VarDecl) × List (Ref Stmt)) × AstInfo) =>
+        ({ doc := p.1.1, name := p.1.2.1, params := p.1.2.2.1, vars := p.1.2.2.2.1, stmts := p.1.2.2.2.2, info := p.2 } : ProcDecl))
+        (info (procDeclInner ctx none))),
+      pmap (fun (p : List Token × AstInfo) =>
+        GlobalDecl.error { p.2 with errors := p.2.errors ++
+          [⟨p.2.range, .UnexpectedCharacters (p.1.flatMap (fun t => displayToken t.ty))⟩] })
+        (info (ignoreUntil1 ctx (peek (la ctx .global_dec)) (loopFuel ctx)))] s = .ok s' d := h
+  simp only [altList] at h'
+  have w0 := wf_errBuf ctx hw []
+  rcases alt2_ok_inv h' with h1 | h23
+  · obtain ⟨a1, e1⟩ := pmap_ok_inv h1
+    obtain ⟨a2, e2⟩ := pmap_ok_inv e1
+    obtain ⟨sx, hx, rfl⟩ := info_ok_inv e2
+    unfold typeDeclInner at hx
+    have hc := doctk_contained ctx .Type _ _ w0 (fun s2 doc _ w2 _ _ =>
+      declTail_safe ctx .Eq .Assign .Colon (.ConfusedToken eqS assignS) (.ConfusedToken eqS colonS) (.ExpectedToken eqS) doc s2 w2
+        (by decide) (by decide) (by decide)) (by decide) _ _ hx
+    exact hc
+  · rcases alt2_ok_inv h23 with h2 | h3
+    · obtain ⟨a1, e1⟩ := pmap_ok_inv h2
+      obtain ⟨a2, e2⟩ := pmap_ok_inv e1
+      obtain ⟨sx, hx, rfl⟩ := info_ok_inv e2
+      rw [procDeclInner_eq] at hx
+      have hc := doctk_contained ctx .Proc (fun doc _ => procRest ctx doc) _ w0
+        (fun s2 doc _ w2 _ _ => procRest_safe ctx doc s2 w2) (by decide) _ _ hx
+      exact hc
+    · obtain ⟨a1, e1⟩ := pmap_ok_inv h3
+      obtain ⟨sx, hx, rfl⟩ := info_ok_inv e1
+      have hs := ignoreUntil1_safe ctx _ (peekla_atEof ctx .global_dec) (peekla_atKw ctx .global_dec) _ _ w0 (loopFuel_ok ctx _ w0)
+        (fun s' w _ _ => peekla_safe ctx .global_dec s' w)
+      have hst := ignoreUntil1_strict ctx _ (peekla_atEof ctx .global_dec) (peekla_atKw ctx .global_dec) _ _ w0 (loopFuel_ok ctx _ w0)
+        (fun s' w _ _ => peekla_safe ctx .global_dec s' w)
+      have px := hs.ok _ _ hx
+      have hlt : s.pos < sx.pos := hst _ _ hx
+      refine ⟨s.pos, Nat.le_refl _, hlt, by intro i t a b; omega, ?_⟩
+      intro i t hi1 hi2 ht
+      exact px.2.2.2.2 i t (Nat.le_of_lt hi1) hi2 ht
+
+theorem refParse_ok_inv {α} {parseT : Option α → P α} {s s' : St} {r : Ref α} (h : refParse parseT none s = .ok s' r) :
+    ∃ s1 a, parseT none { s with refPos := s.pos } = .ok s1 a ∧ s' = { s1 with refPos := s.refPos } ∧
+      r = ⟨a, s.pos - s.refPos⟩ := by
+  unfold refParse at h
+  simp only [Option.map_none, Option.isSome_none] at h
+  split at h
+  · cases h
+  · cases h1 : parseT none { s with refPos := s.pos } with
+    | ok s1 a =>
+      rw [h1] at h
+      simp only [Bool.false_eq_true, if_false, Res.ok.injEq] at h
+      obtain ⟨rfl, rfl⟩ := h
+      exact ⟨s1, a, rfl, rfl, rfl⟩
+    | err k x => rw [h1] at h; cases h
+    | panic e => rw [h1] at h; cases h
+
+/-- **every `proc` / `type` keyword the declaration loop passes is the first token, behind documentation comments,
+    of one of the declarations it returns** -/
+theorem loop_keywords : ∀ (fuel : Nat) (s sE : St) (ds : List (Ref GlobalDecl)), WF ctx s → s.refPos = 0 →
+    many0 (refParse (parseGlobalDecl ctx) none) fuel s = .ok sE ds →
+    ∀ q t, ctx.toks[q]? = some t → (t.kind = Kind.Proc ∨ t.kind = Kind.Type) → s.pos ≤ q → q < sE.pos →
+      ∃ d ∈ ds, d.offset ≤ q ∧ Comments ctx d.offset q
+  | 0, _, _, _, _, _, h => by cases h
+  | fuel + 1, s, sE, ds, hw, hr, h => by
+    intro q t ht hk hq1 hq2
+    simp only [many0] at h
+    cases h1 : refParse (parseGlobalDecl ctx) none s with
+    | err k x => rw [h1] at h; cases h; omega
+    | panic e => rw [h1] at h; cases h
+    | ok s1 d =>
+      rw [h1] at h
+      simp only at h
+      split at h
+      · cases h
+      · cases h2 : many0 (refParse (parseGlobalDecl ctx) none) fuel s1 with
+        | err k x => rw [h2] at h; cases h
+        | panic e => rw [h2] at h; cases h
+        | ok s2 as =>
+          rw [h2] at h
+          cases h
+          obtain ⟨sx, a, hx, rfl, rfl⟩ := refParse_ok_inv h1
+          have hc := globalDecl_contained ctx _ (wf_reref ctx hw) _ _ hx
+          obtain ⟨j, hj1, hj2, hj3, hj4⟩ := hc
+          have hsafe := refParse_safeK ctx hw (globalDecl_safe ctx _ (wf_reref ctx hw))
+          have p1 := hsafe.ok _ _ h1
+          by_cases hlt : q < sx.pos
+          · -- inside the first declaration: it can only be its first token
+            refine ⟨⟨a, s.pos - s.refPos⟩, List.mem_cons_self, ?_, ?_⟩
+            · show s.pos - s.refPos ≤ q
+              omega
+            · have hqj : q = j := by
+                rcases Nat.lt_trichotomy q j with hl | he | hg
+                · have := hj3 q t hq1 hl ht
+                  rcases hk with hk | hk <;> rw [hk] at this <;> cases this
+                · exact he
+                · have := hj4 q t hg hlt ht
+                  rcases hk with hk | hk
+                  · exact absurd hk this.1
+                  · exact absurd hk this.2
+              subst hqj
+              show Comments ctx (s.pos - s.refPos) q
+              rw [hr]
+              exact hj3
+          · -- behind it: one of the following declarations
+            have w1 := p1.wf ctx hw
+            obtain ⟨d, hd, hd1, hd2⟩ := loop_keywords fuel _ _ as w1 (by rw [p1.2.2.1, hr]) h2 q t ht hk
+              (by show sx.pos ≤ q; omega) hq2
+            exact ⟨d, List.mem_cons_of_mem _ hd, hd1, hd2⟩
+
+/-- the same for a whole parse: every `proc` / `type` keyword of the token array -/
+theorem program_keywords (s' : St) (prog : Program) (h : parseProgram ctx none { pos := 0 } = .ok s' prog) :
+    ∀ q t, ctx.toks[q]? = some t → (t.kind = Kind.Proc ∨ t.kind = Kind.Type) →
+      ∃ d ∈ prog.decls, d.offset ≤ q ∧ Comments ctx d.offset q := by
+  intro q t ht hk
+  have hw : WF ctx ({ pos := 0 } : St) := ⟨Nat.le_refl _, Nat.zero_le _⟩
+  have h' : pmap (fun (p : List (Ref GlobalDecl) × AstInfo) => ({ decls := p.1, info := p.2 } : Program))
+      (Parse.bind (info (many ctx (fun (g : GlobalDecl) => g.info.range) (parseGlobalDecl ctx) (loopFuel ctx) none))
+        (fun r => Parse.bind (allConsuming ctx (tk ctx .Eof)) (fun _ => pure' r))) { pos := 0 } = .ok s' prog := h
+  obtain ⟨r, hb⟩ := pmap_ok_inv h'
+  have hprog : prog = { decls := r.1, info := r.2 } := by
+    unfold pmap at h'
+    rw [hb] at h'
+    simp only [Res.ok.injEq] at h'
+    exact h'.2.symm
+  obtain ⟨s1, r1, hi, ht1⟩ := bind_ok_inv hb
+  obtain ⟨s2, u, ha, hp⟩ := bind_ok_inv ht1
+  have hr : r = r1 := by simp only [pure', Res.ok.injEq] at hp; exact hp.2.symm
+  subst hr
+  obtain ⟨sE, hM, rfl⟩ := info_ok_inv hi
+  have hM' : many0 (refParse (parseGlobalDecl ctx) none) (loopFuel ctx) { pos := 0 } = .ok sE r.1 :=
+    (many_none ctx (fun (g : GlobalDecl) => g.info.range) (parseGlobalDecl ctx) (loopFuel ctx) _).symm.trans hM
+  -- the end: `eof` consumed the last token, behind comments only
+  unfold allConsuming at ha
+  cases hk2 : tk ctx .Eof { sE with errBuf := ({ pos := 0 } : St).errBuf } with
+  | ok s3 t3 =>
+    rw [hk2] at ha
+    simp only at ha
+    by_cases hq : (s3.pos == ctx.toks.size) = true
+    · have hsz : s3.pos = ctx.toks.size := by simpa using hq
+      have wE : WF ctx ({ sE with errBuf := ({ pos := 0 } : St).errBuf } : St) :=
+        ((declLoop_safe ctx _ hw).ok _ _ hM').wf ctx hw
+      obtain ⟨hlt, hk3, htok3⟩ := tk_ok ctx wE hk2
+      have hskip := tk_skips ctx hk2
+      have hqlt : q < ctx.toks.size := (Array.getElem?_eq_some_iff.mp ht).1
+      have hqE : q < sE.pos := by
+        by_cases hlt2 : q < sE.pos
+        · exact hlt2
+        · exfalso
+          by_cases hlast : q = s3.pos - 1
+          · rw [hlast, htok3] at ht
+            cases ht
+            rcases hk with hk | hk <;> rw [hk3] at hk <;> cases hk
+          · have := hskip q t (by show sE.pos ≤ q; omega) (by omega) ht
+            rcases hk with hk | hk <;> rw [hk] at this <;> cases this
+      rw [hprog]
+      exact loop_keywords ctx _ _ _ _ hw rfl hM' q t ht hk (Nat.zero_le _) hqE
+    · simp [hq] at ha
+  | err k x => rw [hk2] at ha; cases ha
+  | panic e => rw [hk2] at ha; cases ha
 
 end Spl.Total
